@@ -154,7 +154,7 @@ Section Safe.
     | [] => child = bot
     | (r, p) :: rest =>
         match p with
-        | InCall k => (rank child < rank r)%nat /\ (forall o, bnd (rank r) (k o)) /\
+        | InCall _ k => (rank child < rank r)%nat /\ (forall o, bnd (rank r) (k o)) /\
                       evD (k (D child)) = D r /\ lower_ok r rest bot
         | _ => False
         end
@@ -163,8 +163,8 @@ Section Safe.
   Definition top_ok (p : pc) (r : ref) : Prop :=
     match p with
     | AtEnter | AtPushed => True
-    | InCall _ => False
-    | AtPublish o | AtCached o | AtLeave o => o = D r
+    | InCall _ _ => False
+    | AtPublish o | AtCached o | AtHit o | AtLeave o => o = D r
     end.
 
   Definition pushed (p : pc) : bool := match p with AtEnter => false | _ => true end.
@@ -178,7 +178,9 @@ Section Safe.
           ch = rev (map fst rest) ++ (if pushed p then [r] else [])
     end.
 
-  Definition is_owner (p : pc) : bool := match p with InCall _ | AtPublish _ => true | _ => false end.
+  (* the frames that have to publish an entry: the compute closure, not the uncached re-load *)
+  Definition is_owner (p : pc) : bool :=
+    match p with InCall fb _ => negb fb | AtPublish _ => true | _ => false end.
   Definition owns (st : list frame) (r : ref) : Prop := exists p, In (r, p) st /\ is_owner p = true.
 
   Record Inv (g : gstate) : Prop := {
@@ -201,12 +203,12 @@ Section Safe.
   Qed.
 
   Lemma lower_incall : forall rest r bot x p,
-    lower_ok r rest bot -> In (x, p) rest -> exists k, p = InCall k.
+    lower_ok r rest bot -> In (x, p) rest -> exists fb k, p = InCall fb k.
   Proof.
     induction rest as [|[r1 p1] rest IH]; intros r bot x p H Hin; cbn [In lower_ok] in *; [contradiction|].
     destruct p1; try contradiction.
     destruct H as (_ & _ & _ & H4).
-    destruct Hin as [E|Hin]; [inversion E; subst; eexists; reflexivity|].
+    destruct Hin as [E|Hin]; [inversion E; subst; eexists; eexists; reflexivity|].
     exact (IH _ _ _ _ H4 Hin).
   Qed.
 
@@ -216,15 +218,15 @@ Section Safe.
     apply memN_In in E. apply in_rev in E. apply (lower_rank _ _ _ _ H) in E. lia.
   Qed.
 
-  Lemma advance_ok r p rest bot :
+  Lemma advance_ok fb r p rest bot :
     bnd (rank r) p -> evD p = D r -> lower_ok r rest bot ->
-    exists r2 p2 rest2, advance c r p rest = (r2, p2) :: rest2 /\ top_ok p2 r2 /\ lower_ok r2 rest2 bot /\
+    exists r2 p2 rest2, advance c fb r p rest = (r2, p2) :: rest2 /\ top_ok p2 r2 /\ lower_ok r2 rest2 bot /\
       rev (map fst rest2) ++ (if pushed p2 then [r2] else []) = rev (map fst rest) ++ [r].
   Proof.
     intros Hb He Hl. destruct p as [o|ty r' k]; cbn [advance].
-    - exists r, (if cache_on c then AtPublish o else AtCached o), rest.
-      cbn [evalD1] in He. destruct (cache_on c); cbn [top_ok pushed]; auto.
-    - exists r', AtEnter, ((r, InCall k) :: rest).
+    - exists r, (if fb then AtLeave o else if cache_on c then AtPublish o else AtCached o), rest.
+      cbn [evalD1] in He. destruct fb; [|destruct (cache_on c)]; cbn [top_ok pushed]; auto.
+    - exists r', AtEnter, ((r, InCall fb k) :: rest).
       cbn [bounded1] in Hb. destruct Hb as [Hr Hk]. cbn [evalD1] in He.
       cbn [top_ok pushed lower_ok map fst rev]. rewrite app_nil_r. auto 10.
   Qed.
@@ -238,14 +240,14 @@ Section Safe.
     inversion E; subst. destruct Hn as [Hn|Hn]; [congruence|contradiction].
   Qed.
 
-  Lemma owns_advance r p rest : cache_on c = true -> owns (advance c r p rest) r.
+  Lemma owns_advance r p rest : cache_on c = true -> owns (advance c false r p rest) r.
   Proof.
     intros Hc. destruct p as [o|ty r' k]; cbn [advance].
     - rewrite Hc. exists (AtPublish o). split; [left; reflexivity|reflexivity].
-    - exists (InCall k). split; [right; left; reflexivity|reflexivity].
+    - exists (InCall false k). split; [right; left; reflexivity|reflexivity].
   Qed.
 
-  Lemma owns_advance_rest r p rest x : owns rest x -> owns (advance c r p rest) x.
+  Lemma owns_advance_rest fb r p rest x : owns rest x -> owns (advance c fb r p rest) x.
   Proof.
     intros H. destruct p as [o|ty r' k]; cbn [advance]; repeat apply owns_cons; exact H.
   Qed.
@@ -313,7 +315,7 @@ Section Safe.
     pose proof (inv_th g HI t) as Hth. unfold thread_ok in Hth. rewrite Hst in Hth.
     destruct Hth as (bot & Htop & Hlow & Hres & Hch).
     cbv zeta. rewrite (inv_po g HI).
-    destruct p as [| |k|o|o|o]; cbn [pushed top_ok] in Htop, Hch.
+    destruct p as [| |fb k|o|o|o|o]; cbn [pushed top_ok] in Htop, Hch.
     - (* AtEnter: push *)
       rewrite app_nil_r in Hch. rewrite Hch, (not_in_chain _ _ _ Hlow).
       unfold set_thread, set_chain; cbn [chains poisoned cache threads aborted].
@@ -326,10 +328,10 @@ Section Safe.
       + apply owners_keep; [exact HI|]. intros x _ Ho. rewrite Hst in Ho. cbn [stack].
         apply owns_cons. apply (owns_tail _ _ _ _ Ho). left; reflexivity.
     - (* AtPushed *)
-      destruct (advance_ok r (prog r) rest bot (Hac r) (eq_sym (D1_eval prog rank Hac r)) Hlow)
+      destruct (advance_ok false r (prog r) rest bot (Hac r) (eq_sym (D1_eval prog rank Hac r)) Hlow)
         as (r2 & p2 & rest2 & Ea & Ht2 & Hl2 & Hc2).
       assert (Hthk : thread_ok (nth t progs [])
-                (mkThread (advance c r (prog r) rest) (todo (threads g t)) (results (threads g t)))
+                (mkThread (advance c false r (prog r) rest) (todo (threads g t)) (results (threads g t)))
                 (chains g (res_of c t) (tkey c t))).
       { unfold thread_ok; cbn [stack todo results]. rewrite Ea. exists bot.
         rewrite Hc2. auto. }
@@ -393,6 +395,28 @@ Section Safe.
       + apply HI.
       + apply owners_keep; [exact HI|]. intros x _ Ho. rewrite Hst in Ho. cbn [stack].
         apply owns_cons. apply (owns_tail _ _ _ _ Ho). left; reflexivity.
+    - (* AtHit: a cached error is not served, the load is repeated uncached *)
+      assert (Hlv : Inv (set_thread g t (mkThread ((r, AtLeave o) :: rest) (todo (threads g t))
+                                                  (results (threads g t))))).
+      { unfold set_thread; cbn [chains poisoned cache threads aborted].
+        apply Inv_update.
+        + exact HI.
+        + reflexivity.
+        + unfold thread_ok; cbn [stack todo results]. exists bot. cbn [top_ok pushed]. auto.
+        + apply HI.
+        + apply owners_keep; [exact HI|]. intros x _ Ho. rewrite Hst in Ho. cbn [stack].
+          apply owns_cons. apply (owns_tail _ _ _ _ Ho). left; reflexivity. }
+      destruct o as [v|e|s|]; try exact Hlv.
+      destruct (advance_ok true r (prog r) rest bot (Hac r) (eq_sym (D1_eval prog rank Hac r)) Hlow)
+        as (r2 & p2 & rest2 & Ea & Ht2 & Hl2 & Hc2).
+      unfold set_thread; cbn [chains poisoned cache threads aborted].
+      apply Inv_update.
+      + exact HI.
+      + reflexivity.
+      + unfold thread_ok; cbn [stack todo results]. rewrite Ea. exists bot. rewrite Hc2. auto.
+      + apply HI.
+      + apply owners_keep; [exact HI|]. intros x _ Ho. rewrite Hst in Ho. cbn [stack].
+        apply owns_advance_rest. apply (owns_tail _ _ _ _ Ho). left; reflexivity.
     - (* AtLeave: pop *)
       rewrite Hch, split_last_app, N.eqb_refl.
       unfold set_thread, set_chain; cbn [chains poisoned cache threads aborted].
@@ -410,9 +434,9 @@ Section Safe.
         * apply HI.
         * apply owners_keep; [exact HI|]. intros x _ Ho. rewrite Hst in Ho.
           exfalso. apply (owns_nil x). apply (owns_tail _ _ _ _ Ho). left; reflexivity.
-      + cbn [lower_ok] in Hlow. destruct p' as [| |k|o'|o'|o']; try contradiction.
+      + cbn [lower_ok] in Hlow. destruct p' as [| |fb k|o'|o'|o'|o']; try contradiction.
         destruct Hlow as (Hrk & Hbk & Hev & Hlow'). subst o. cbn [return_to].
-        destruct (advance_ok r' (k (D r)) rest' bot (Hbk _) Hev Hlow')
+        destruct (advance_ok fb r' (k (D r)) rest' bot (Hbk _) Hev Hlow')
           as (r2 & p2 & rest2 & Ea & Ht2 & Hl2 & Hc2).
         apply Inv_update.
         * exact HI.
@@ -422,9 +446,11 @@ Section Safe.
         * apply HI.
         * apply owners_keep; [exact HI|]. intros x Hcc Ho. rewrite Hst in Ho. cbn [stack].
           apply owns_tail in Ho; [|left; reflexivity].
-          destruct (N.eq_dec x r') as [->|Hne].
-          -- apply owns_advance. exact Hcc.
-          -- apply owns_advance_rest. apply (owns_tail _ _ _ _ Ho). right; exact Hne.
+          destruct fb.
+          -- apply owns_advance_rest. apply (owns_tail _ _ _ _ Ho). left; reflexivity.
+          -- destruct (N.eq_dec x r') as [->|Hne].
+             ++ apply owns_advance. exact Hcc.
+             ++ apply owns_advance_rest. apply (owns_tail _ _ _ _ Ho). right; exact Hne.
   Qed.
 
   (** deadlock freedom: a blocked thread waits for an entry whose owner is enabled or itself blocked on a
@@ -563,18 +589,22 @@ Section Safe.
     match p with
     | AtEnter => cost r
     | AtPushed => 4 + pcost (prog r)
-    | InCall _ => 0
+    | InCall _ _ => 0
     | AtPublish _ => 3
     | AtCached _ => 2
+    | AtHit _ => 2 + pcost (prog r)
     | AtLeave _ => 1
     end%nat.
+
+  (* steps left after the computation of a frame returned: publish, cached, leave / leave *)
+  Definition tailw (fb : bool) : nat := if fb then 1%nat else 3%nat.
 
   Fixpoint lmeas (child : ref) (st : list frame) : nat :=
     match st with
     | [] => O
     | (r, p) :: rest =>
         match p with
-        | InCall k => (3 + pcost (k (D child)) + lmeas r rest)%nat
+        | InCall fb k => (tailw fb + pcost (k (D child)) + lmeas r rest)%nat
         | _ => O
         end
     end.
@@ -587,10 +617,11 @@ Section Safe.
 
   Definition tmeas (th : thread) : nat := (smeas (stack th) + list_sum (map cost (todo th)))%nat.
 
-  Lemma advance_meas r p rest : (smeas (advance c r p rest) <= 3 + pcost p + lmeas r rest)%nat.
+  Lemma advance_meas fb r p rest :
+    (smeas (advance c fb r p rest) <= tailw fb + pcost p + lmeas r rest)%nat.
   Proof.
     destruct p as [o|ty r' k]; cbn [advance smeas].
-    - destruct (cache_on c); cbn [top_meas pcostn]; lia.
+    - destruct fb; [|destruct (cache_on c)]; cbn [top_meas pcostn tailw]; lia.
     - cbn [top_meas lmeas pcostn]. lia.
   Qed.
 
@@ -605,8 +636,10 @@ Section Safe.
     destruct Hth as (bot & Htop & Hlow & Hres & Hch).
     cbv zeta. rewrite (inv_po g HI).
     unfold tmeas at 2. rewrite Hst.
-    pose proof (advance_meas r (prog r) rest) as Hadv.
-    destruct p as [| |k|o|o|o]; cbn [pushed top_ok] in Htop, Hch; cbn [smeas top_meas].
+    pose proof (advance_meas false r (prog r) rest) as Hadv.
+    pose proof (advance_meas true r (prog r) rest) as Hadv'.
+    cbn [tailw] in Hadv, Hadv'.
+    destruct p as [| |fb k|o|o|o|o]; cbn [pushed top_ok] in Htop, Hch; cbn [smeas top_meas].
     - rewrite app_nil_r in Hch. rewrite Hch, (not_in_chain _ _ _ Hlow).
       eexists. split; [reflexivity|]. unfold tmeas; cbn [stack todo smeas top_meas].
       rewrite cost_eq. lia.
@@ -617,15 +650,17 @@ Section Safe.
     - discriminate Hen.
     - eexists. split; [reflexivity|]. unfold tmeas; cbn [stack todo smeas top_meas]. lia.
     - eexists. split; [reflexivity|]. unfold tmeas; cbn [stack todo smeas top_meas]. lia.
+    - destruct o as [v|e|s|]; (eexists; split; [reflexivity|]);
+        unfold tmeas; cbn [stack todo smeas top_meas]; lia.
     - rewrite Hch, split_last_app, N.eqb_refl.
       eexists. split; [reflexivity|].
       destruct rest as [|[r' p'] rest'].
       + cbn [return_to].
         destruct (todo (threads g t)) as [|r1 todo'] eqn:Htd;
           unfold next_call, tmeas; cbn [stack todo results smeas top_meas lmeas map list_sum fold_right]; lia.
-      + cbn [lower_ok] in Hlow. destruct p' as [| |k|o'|o'|o']; try contradiction.
+      + cbn [lower_ok] in Hlow. destruct p' as [| |fb k|o'|o'|o'|o']; try contradiction.
         subst o. cbn [return_to]. unfold tmeas; cbn [stack todo lmeas].
-        pose proof (advance_meas r' (k (D r)) rest'). lia.
+        pose proof (advance_meas fb r' (k (D r)) rest'). lia.
   Qed.
 
   Fixpoint musum (f : tid -> nat) (n : nat) : nat :=
